@@ -26,6 +26,14 @@ Theorem C18_recognise_sound : forall b k args,
 Proof. exact recognise_sound. Qed.
 Print Assumptions C18_recognise_sound.
 
+(* ... for every recognised body that is valid IR (operand types agree, extsi widens, the yielded
+   value has the output type): no assumption about the kernel is left *)
+Theorem C18_recognise_sound_typed : forall b k args,
+  recognise b = Some k -> body_typed b = true ->
+  eval_body b args = [eval_kernel k (argtys b) args].
+Proof. exact recognise_sound_typed. Qed.
+Print Assumptions C18_recognise_sound_typed.
+
 (* bodies with the same kinds of ops wired differently are left unchanged *)
 Theorem C18_recognise_unchanged_otherwise : forall b,
   (forall k, In k parsable -> b <> equivalent_region k (argtys b)) -> recognise b = None.
